@@ -152,6 +152,8 @@ type reqSpec struct {
 	// ValidatorDecides: rejection is (or is not) a verdict of parser+validator alone
 	// (cross-checked against the pristine gqlparser validator at start-up).
 	ValidatorDecides bool `json:"-"`
+	// TokenLimit: the executor is configured with this parser token limit (0 = none)
+	TokenLimit int `json:"parser_token_limit,omitempty"`
 }
 
 func requests() []reqSpec {
@@ -186,6 +188,9 @@ func requests() []reqSpec {
 		{Name: "ambiguous-operation", Query: `query A{a} query B{name}`, Accept: false},
 		{Name: "variable-wrong-json-type", Query: `query($x:Int){b(x:$x)}`, Vars: map[string]any{"x": "abc"}, Accept: false},
 		{Name: "missing-nonnull-variable", Query: `query($x:Int!){b(x:$x)}`, Accept: false},
+		// the parser's token limit is a parse failure like any other (7 tokens > 5)
+		{Name: "over-token-limit", Query: `{a name a name a}`, Accept: false, TokenLimit: 5},
+		{Name: "at-token-limit", Query: `{a name a}`, Accept: true, Roots: []string{"Query.a", "Query.name"}, TokenLimit: 5},
 	}
 	return rs
 }
@@ -319,9 +324,12 @@ type caseDesc struct {
 	Request reqSpec  `json:"request"`
 }
 
-func newExecutor(log *handschema.Log, exts []string, cache string, noSugg bool) *executor.Executor {
+func newExecutor(log *handschema.Log, exts []string, cache string, noSugg bool, tokenLimit ...int) *executor.Executor {
 	hs := handschema.New(log)
 	ex := executor.New(hs)
+	if len(tokenLimit) > 0 && tokenLimit[0] > 0 {
+		ex.SetParserTokenLimit(tokenLimit[0])
+	}
 	for _, e := range exts {
 		ex.Use(mkExt(e, log))
 	}
@@ -339,7 +347,7 @@ func newExecutor(log *handschema.Log, exts []string, cache string, noSugg bool) 
 
 func checkCase(c *common.Check, cd caseDesc, byName map[string]reqSpec) (nontrivial bool) {
 	log := &handschema.Log{}
-	ex := newExecutor(log, cd.Exts, cd.Cache, cd.NoSugg)
+	ex := newExecutor(log, cd.Exts, cd.Cache, cd.NoSugg, cd.Request.TokenLimit)
 	for _, h := range cd.History {
 		runRequest(ex, log, byName[h])
 	}
@@ -433,10 +441,10 @@ func sequentialShard(tier string, shard, n int, deadline time.Time) seqResult {
 		byName[r.Name] = r
 	}
 	crossCheckValidator(rs)
-	maxExt, histNames := 3, []string{"a", "unknown-field"}
+	maxExt, histNames := 3, []string{"a", "unknown-field", "two-ops-second"}
 	caches := []string{"none", "lru1", "map"}
 	if tier == "thorough" {
-		maxExt, histNames = 3, []string{"a", "a-name", "unknown-field", "mutation"}
+		maxExt, histNames = 3, []string{"a", "a-name", "unknown-field", "mutation", "two-ops-second"}
 		caches = []string{"none", "map", "lru1", "lru8"}
 	}
 	var hists [][]string
